@@ -74,6 +74,11 @@ CLAIMED.update({
          "A boundary preamble (every transport x IPv4/IPv6 x variable lengths 0/1/254/255/256 and a message filled to exactly the transport's maximum) and thousands (quick) to >100k (thorough) generated sessions with templates of 1..40 elements from the whole registry and boundary-biased values: the collector must deliver the same observation domain, template fields (id, enterprise, type, length, name) in order, record count and bit-identical values. Sampled; value-space coverage comes from C15. DTLS messages above 8000 bytes are the open finding D10 (excluded, counted, probed every run).",
          "trusted: loopback ordering; a UDP datagram loss makes a case inconclusive; in-process certificates", "DESIGN.md section 3 C01"),
 })
+CLAIMED.update({
+ "C14": ("randomized concurrency testing (schedule sampling) under the Go race detector: rapid-generated timings of application sends vs refresh rounds / real ticker / peer close / concurrent Close calls; oracle = reference parsing of every datagram, ordering and counting invariants over the history, goroutine-leak and crash checks",
+         "Hundreds (quick) to thousands (thorough) of generated timing cases at GOMAXPROCS 2/4/16 plus cases with the real 1 s ticker: every datagram is a complete well-formed message that is the application's next message or a retransmission of a template already sent (byte-identical), application messages stay in order with correct sequence numbers, every template is retransmitted the right number of times, a tcp peer close makes sends fail (and stay failed), concurrent repeated Close calls return, later sends fail, nothing is written afterwards, no exporter goroutine remains, and the race detector is silent. Schedules are sampled, not enumerated: an interleaving that needs a rare timing can be missed.",
+         "trusted: Go race detector (executed paths only); harness/refipfix; verif hook VerifSendRefreshedTemplates = the ticker body", "DESIGN.md section 3 C14 and section 5"),
+})
 HOOK_COMMITS = ["bde829d", "7b897fc", "836c091"]
 
 checks = []
